@@ -403,6 +403,9 @@ class CallMixin:
                 arr = st.heap_arr(fs.fid, fs.t.sort())
                 nv = fresh('hv_' + node.attr, fs.t.sort())
                 st.heap[fs.fid] = z3.Store(arr, obj.term, nv)
+                if fs.t.is_container and fs.nullable:
+                    sa = st.heap_arr(fs.fid + '$some', z3.BoolSort())
+                    st.heap[fs.fid + '$some'] = z3.Store(sa, obj.term, fresh('hv_some', z3.BoolSort()))
                 if fs.t.kind == 'list':
                     st.assume(fs.t.acc('len')(nv) >= 0)
                 return
